@@ -201,7 +201,8 @@ def judge(ctx, scns, trace_path, results_path, expected, label):
         # Isolation of the data streams: one stream per run, no stream seen by two runs
         tags = [tuple(r["tags"]) for r in rs]
         if s["mode"] == "gated":
-            if any(len(t) != 1 for t in tags) or len(set(tags)) != len(tags) or any(t[0] < 1 or t[0] > len(rs) for t in tags if t):
+            seen = [t for t in tags if t]          # (a run that saw no market event at all is judged below)
+            if any(len(t) != 1 for t in seen) or len(set(seen)) != len(seen) or any(t[0] < 1 or t[0] > len(rs) for t in seen):
                 ctx.violation("streams:mixed", "scenario %s: the runs saw events of the streams %s - every run must see "
                               "exactly its own stream" % (scn, tags), replay_of([scn]))
         for r in rs:
@@ -219,10 +220,13 @@ def judge(ctx, scns, trace_path, results_path, expected, label):
                 ctx.violation("summary:%s:not-own-engine" % r["mode"], "%s: returned summary (id ok: %s) %s differs from the "
                               "summary of the run's own final engine state %s" % (who, r["summary_id_ok"], json.dumps(r["summary"])[:400],
                                                                                  json.dumps(r["digest"])[:400]), replay_of([scn]))
-            closed = any(p["closed_positions"] != "0" for p in r["facts"]["realised_pnl"])
+            facts = r["facts"] or {"realised_pnl": []}
+            closed = any(p["closed_positions"] != "0" for p in facts["realised_pnl"])
             stats["runs_with_closed_positions"] += 1 if closed else 0
             fired = sorted(a["k"] for a in r["acts"])
-            if r["mode"] == "gated":
+            # (what follows presupposes the consumption clauses: a run already rejected is not judged further)
+            rejected = "%s/%d" % (scn, r["run"]) in seen_runs or r["consumed"] != r["n"]
+            if r["mode"] == "gated" and not rejected:
                 # scenario sanity (tool level): the gate only opens when everything was answered
                 if r["orders_fired"] != len(fired) or r["trades_seen"] != len(fired) or r["balances_seen"] != len(fired):
                     raise vlib.ToolError("%s: gated scenario ended with %d orders / %d balances / %d trades for %d decision points"
@@ -242,7 +246,7 @@ def judge(ctx, scns, trace_path, results_path, expected, label):
                 stats["inmem_runs_ending_with_unprocessed_fills"] += 1
             # spec -> impl: the final observation is one of the outcomes TLC enumerated for these parameters
             exp = expected.get((r["data_seed"], r["variant"]))
-            if exp is not None and scn.startswith("t"):
+            if exp is not None and scn.startswith("t") and not rejected:
                 obs = {"consumed": list(range(1, r["consumed"] + 1)) if r["consumed"] == r["n"] else r["consumed"],
                        "sent": fired[:r["orders_fired"]], "trades": [f["k"] for f in r["fills"]]}
                 allowed = [e for e in exp if r["mode"] != "gated" or e["pending"] == 0]
@@ -287,21 +291,40 @@ def diff(a, b, path=""):
 
 
 # ------------------------------------------------------------------------------- self-test
-def binding_bites(ctx, trace_path):
-    """Corrupt recorded run logs one field at a time: Trace_Backtest must reject each copy."""
-    lines = ctx.read_trace(trace_path)
-    segs = [s for s in first_lines_by_run(lines) if s[2][-1]["a"] == "End" and len(s[2]) <= 400
-            and sum(1 for l in s[2] if l["a"] == "Market") >= 8
-            and any(l["a"] == "Account" and l["kind"] == "trade" for l in s[2])]
-    if not segs:
-        raise vlib.ToolError("self-test: no recorded run with a fill to corrupt")
-    seg = segs[0][2]
+def synthetic_run():
+    """A well-formed observation log (what a correct run of n=12, orders on events 3 and 7 looks like)."""
+    def L(a, **kw):
+        d = {"a": a, "id": 0, "tag": 0, "kind": "-", "k": 0, "sent": [], "nc": 0, "na": 0, "n": 0, "recs": [], "acts": [], "sumok": True}
+        d.update(kw)
+        return d
+    seg = [L("Reset", n=12, recs=[5], acts=[3, 7], tag=2, kind="selftest/0")]
+    nc = na = 0
+    sent = []
+    for i in range(1, 13):
+        nc += 1
+        seg.append(L("Disc", tag=2, nc=nc, na=na, sent=list(sent)) if i == 5 else L("Market", id=i, tag=2, nc=nc, na=na, sent=list(sent)))
+        if i == 1:
+            na += 1
+            seg.append(L("Account", kind="snapshot", k=0, nc=nc, na=na, sent=list(sent)))
+        if i in (3, 7):
+            sent.append(i)
+            for kind in ("balance", "order", "trade"):
+                na += 1
+                seg.append(L("Account", kind=kind, k=i, nc=nc, na=na, sent=list(sent)))
+    seg.append(L("End", tag=2, nc=nc, na=na, sent=list(sent)))
+    return seg
+
+
+def binding_bites(ctx):
+    """Corrupt a well-formed run log one field at a time: Trace_Backtest must accept the original
+    and reject every corrupted copy with the expected clause."""
+    seg = synthetic_run()
     markets = [j for j, l in enumerate(seg) if l["a"] == "Market"]
     trade = next(j for j, l in enumerate(seg) if l["a"] == "Account" and l["kind"] == "trade")
 
     def copy():
         return [dict(l) for l in seg]
-    muts = []
+    muts = [("nothing (the original)", copy(), None)]
     m = copy(); del m[markets[len(markets) // 2]]; muts.append(("a market event never reached the engine", m, "skipped-item"))
     m = copy(); j = markets[len(markets) // 2]; m.insert(j + 1, dict(m[j])); muts.append(("a market event reached the engine twice", m, "repeated-item"))
     m = copy(); a, b = markets[2], markets[3]; m[a], m[b] = m[b], m[a]; muts.append(("two market events swapped", m, "skipped-item"))
@@ -323,11 +346,15 @@ def binding_bites(ctx, trace_path):
     caught = []
     for (lo, hi), (what, _, tag) in zip(bounds, muts):
         tags = set(t for b in bad if lo <= b <= hi for t in ctx.last_tags.get(b, []))
+        if tag is None:
+            if any(lo <= b <= hi for b in bad):
+                raise vlib.ToolError("self-test: the well-formed run log was rejected (%s)" % sorted(tags))
+            continue
         if tag not in tags:
             raise vlib.ToolError("self-test: corrupted trace (%s) was not rejected as %s (rejections: %s)" % (what, tag, sorted(tags)))
         caught.append(what)
     ctx.cov["corrupted_traces_rejected"] = caught
-    vlib.log("self-test: %d corrupted copies of a recorded run rejected by Trace_Backtest" % len(caught))
+    vlib.log("self-test: %d corrupted copies of a well-formed run log rejected by Trace_Backtest (the original accepted)" % len(caught))
 
 
 # ------------------------------------------------------------------------------- entry points
@@ -345,6 +372,7 @@ def check(ctx):
     ctx.assumptions += ASSUMPTIONS
     ctx.build("c20")
     model_check(ctx)
+    binding_bites(ctx)
     # spec -> impl: every small parameterisation, all run concurrently
     _, outcomes = ctx.tlc_gen("Gen_" + MODULE, "GenT_Backtest.cfg" if ctx.quick else "GenT_Backtest_thorough.cfg",
                               "outcomes.ndjson", timeout=1200, workers=1 if ctx.quick else 4)
@@ -359,10 +387,9 @@ def check(ctx):
     scns_r = json.loads(out.strip().splitlines()[-1])
     ctx.sample({"kind": "seeded scenario (gated, concurrent)", "scenario": next(
         dict(s, runs=s["runs"][:2]) for s in scns_r if s["mode"] == "gated" and len(s["runs"]) > 1)})
-    tp = run_all(ctx, scns_r, {}, "seeded")
-    binding_bites(ctx, tp)
+    run_all(ctx, scns_r, {}, "seeded")
     st = ctx.cov["implementation_runs"]
-    if st["fills"] == 0 or st["runs_with_closed_positions"] == 0 or st["gated_runs_compared_with_alone"] == 0 or st["tlc_outcomes_matched"] == 0:
+    if not ctx.violations and (st["fills"] == 0 or st["runs_with_closed_positions"] == 0 or st["gated_runs_compared_with_alone"] == 0 or st["tlc_outcomes_matched"] == 0):
         raise vlib.ToolError("vacuous run: %s" % st)
     return ctx.finish()
 
